@@ -59,6 +59,12 @@ func hs2(z string) string { return "!" + z }
 func pair(v int) (int, int) { return v + 1, v - 1 }
 
 func sub2(c, d int) int { return c - d*2 }
+
+type lv2 int
+
+func (v lvl) tag() int { return int(v) + 1 }
+
+func (v lv2) tag() int { return int(v) * 2 }
 `
 
 const sig = "(a, b int, s []int, x, y string) (int, string)"
@@ -723,6 +729,39 @@ func glen[M ~map[int]int](m M, n int) int {
 		i = c
 	}
 	return t, x`),
+		mk("consttypephi", `	c := int8(100)
+	if a > 2 {
+		c = 27
+	}
+	c += c
+	return int(c) + b, x`),
+		mk("consttypeshift", `	return int(int8(1)<<uint(a&7)) + b, x`),
+		Base{Name: "F", ID: "constrecv", Src: "func F" + sig + ` {
+	return lvl(3).tag() + a, x
+}
+`, Manual: []ManualEdit{{"the receiver constant is converted to another type of the same package whose method has the same name (lvl(3).tag() -> lv2(3).tag())", "func F" + sig + ` {
+	return lv2(3).tag() + a, x
+}
+`}}},
+		Base{Name: "F", ID: "localtype", Src: "func F" + sig + ` {
+	type cell int8
+	c := cell(100)
+	if a > 2 {
+		c = 27
+	}
+	c += c
+	return int(c) + b, y
+}
+`, Manual: []ManualEdit{{"a type declared inside the function changes its underlying type (type cell int8 -> int16)", "func F" + sig + ` {
+	type cell int16
+	c := cell(100)
+	if a > 2 {
+		c = 27
+	}
+	c += c
+	return int(c) + b, y
+}
+`}}},
 		mk("dupexpr", `	t := a * b
 	c := (t + 1) * (t + 1)
 	d := (t - 2) * (t - 2)
